@@ -133,6 +133,9 @@ static void build_archives(void)
 	ab_add(a, 0, 0, "-lh0-", "", "FIRST.TXT", NULL, 30, 31, 0, 0, 0);
 	AB_DOUBLE_NAME = 1;         /* this member and the next carry their name twice */
 	ab_add(a, 2, 0, "-lh5-", "", "second.txt", NULL, 500, 32, 1, 0100644, 1262304000);
+	AB_DOUBLE_NAME = 0;
+	ab_add(a, 2, 1, "-lhd-", "sub/", "", NULL, 0, 0, 1, 040755, 1262304000);
+	AB_DOUBLE_NAME = 1;
 	ab_add(a, 1, 0, "-lh0-", "sub/", "third.txt", NULL, 40, 34, 1, 0100644, 1262304000);
 	AB_DOUBLE_NAME = 0;
 	/* a directory entry without any metadata (no Unix headers, zero time stamp) and a file in it */
@@ -456,7 +459,7 @@ static void execute(const ab_arc *a, int ai, int policy, vf_enum *e, const run_o
 				if (full[0] && full[strlen(full) - 1] == '/') full[strlen(full) - 1] = 0;
 				if (lstat(full, &sb) != 0 || !S_ISDIR(sb.st_mode)) { vf_viol("c06-policy-dir-missing", "policy %d: directory %s missing after extracting everything", policy, full); continue; }
 				if (x->unix_meta && (sb.st_mode & 0777) != (x->perms & 0777)) vf_viol("c06-policy-dir-mode", "policy %d: directory %s has mode %o, recorded %o", policy, full, (unsigned) sb.st_mode & 0777, x->perms & 0777);
-				if (policy != LHA_READER_DIR_PLAIN && x->level >= 1 && (uint32_t) sb.st_mtime != x->mtime) {
+				if (policy != LHA_READER_DIR_PLAIN && x->level >= 1 && x->mtime != 0 && (uint32_t) sb.st_mtime != x->mtime) {     /* a zero time stamp means none is recorded */
 					/* a directory that holds a deferred link is re-timed when the link is created at the end: outside the guarantee */
 					int holds_deferred = 0, j;
 					for (j = 0; j < a->nm; ++j) if (a->m[j].kind == 2 && is_dangerous(a->m[j].target) && !strcmp(a->m[j].path, x->path)) holds_deferred = 1;
